@@ -3202,3 +3202,37 @@ TWINS = list(TWINS) + [
       "                b = np.log(a, dtype=np.float64)\n")),
 ]
 
+
+TWINS = list(TWINS) + [
+    ("statistics: feature statistics registered in a loop over a table",
+     STAT,
+     ('Statistics(name="Mean",   req_feature=True, method=np.average)\n'
+      'Statistics(name="Median", req_feature=True, method=np.median)\n'
+      'Statistics(name="Mode",   req_feature=True, method=mode)\n'
+      'Statistics(name="SD",     req_feature=True, method=np.std)\n',
+      "for _name, _method in [\n"
+      '        ("Mean", np.average),\n'
+      '        ("Median", np.median),\n'
+      '        ("Mode", mode),\n'
+      '        ("SD", np.std),\n'
+      "        ]:\n"
+      "    Statistics(name=_name, req_feature=True, method=_method)\n")),
+    ("spacing: private static wrapper of the scaling step", CORE,
+     [("        asc = RTDCBase._apply_scale(a, scale, feat)\n",
+       "        asc = RTDCBase._scaled(a, scale, feat)\n"),
+      ("    @staticmethod\n    def get_kde_spacing(",
+       "    @staticmethod\n    def _scaled(a, scale, feat):\n"
+       "        return RTDCBase._apply_scale(a, scale, feat)\n\n"
+       "    @staticmethod\n    def get_kde_spacing(")]),
+]
+
+MUTANTS = list(MUTANTS) + [
+    ("statistics: %-gated registered in a loop, factor lost", STAT,
+     ('Statistics(name="%-gated",\n'
+      "           method=lambda mm: np.average(mm.filter.all)*100)\n",
+      "for _name, _method in [\n"
+      '        ("%-gated", lambda mm: np.average(mm.filter.all)),\n'
+      "        ]:\n"
+      "    Statistics(name=_name, method=_method)\n"), "R12.1"),
+]
+
